@@ -87,7 +87,9 @@ _TEMPLATE = {"turn": 1, "agent": "Ambrose", "version_etag": "2", "applied": 0, "
                                "ep00\u2192ep02": {"src": "ep00", "dst": "ep02", "rel": "coact", "weight": 0.650648, "updated_at": None, "attrs": {"last_seen_turn": 0, "coact": 1}, "id": "ep00\u2192ep02"}},
                      "meta": {"merges": [], "splits": [], "promotions": [], "concept_nodes_count": 0, "edges_count": 2, "schema": "v1.1"}},
              "graph": {"nodes_count": 3, "edges_count": 2, "meta": {"last_update": None}}}
-_SHAPES: List[Any] = [None, 5, -1, 0.5, "x", "", [], {}, [1], ["a", "b"], {"a": 1}, True, 1e308, "NaN", [[]], [{}], {"id": 7}, "9" * 50, -0.0, 2**70]
+_SHAPES: List[Any] = [None, 5, -1, 0.5, "x", "", [], {}, [1], ["a", "b"], {"a": 1}, True, 1e308, "NaN", [[]], [{}], {"id": 7}, "9" * 50, -0.0, 2**70,
+                     # the non-finite tokens Python's JSON dialect reads and writes
+                     float("nan"), float("inf"), float("-inf"), [float("nan")], {"x": float("inf")}]
 
 
 def _mutated_snapshot(r) -> bytes:
